@@ -352,6 +352,37 @@ template <int B> struct forms {
             prm.precond.coarsening.aggr.block_size = B;
             S s(adapter::block_matrix<Blk>(T), prm);
             auto F = backend::reinterpret_as_rhs<Blk>(f); auto X = backend::reinterpret_as_rhs<Blk>(x); std::tie(it, err) = s(F, X); });
+        // ---- call history on one object: built for A0 (the system with a heavier diagonal), later asked to solve the
+        //      caller's matrix A1 = K with operator()(A1, rhs, x): solution and residual must be those of A1
+        guarded("make_block_solver built for A0, then operator()(A1 = K, rhs, x)", [&](std::vector<double> &x, size_t &it, double &err) {
+            typedef make_block_solver< amg<BB, coarsening::smoothed_aggregation, relaxation::spai0>, solver::cg<BB> > S; typename S::params prm; common(prm);
+            arrays a0 = a; for (size_t i = 0; i < a0.n; ++i) for (ptrdiff_t p = a0.ptr[i]; p < a0.ptr[i+1]; ++p) if (a0.col[p] == (ptrdiff_t)i) a0.val[p] *= 1.25;
+            S s(std::tie(a0.n, a0.ptr, a0.col, a0.val), prm);
+            { std::vector<double> x0(a.n, 0.0); s(f, x0); }                    // first use: the A0 system
+            std::tie(it, err) = s(T, f, x); });
+        guarded("make_solver (block backend) built for A0, then operator()(block A1 = K, rhs, x)", [&](std::vector<double> &x, size_t &it, double &err) {
+            typedef make_solver< amg<BB, coarsening::smoothed_aggregation, relaxation::spai0>, solver::cg<BB> > S; typename S::params prm; common(prm);
+            arrays a0 = a; for (size_t i = 0; i < a0.n; ++i) for (ptrdiff_t p = a0.ptr[i]; p < a0.ptr[i+1]; ++p) if (a0.col[p] == (ptrdiff_t)i) a0.val[p] *= 1.25;
+            auto T0 = std::tie(a0.n, a0.ptr, a0.col, a0.val);
+            S s(adapter::block_matrix<Blk>(T0), prm);
+            backend::crs<Blk, ptrdiff_t, ptrdiff_t> K1(adapter::block_matrix<Blk>(T));
+            auto F = backend::reinterpret_as_rhs<Blk>(f); auto X = backend::reinterpret_as_rhs<Blk>(x); std::tie(it, err) = s(K1, F, X); });
+        // ---- mixed precision through the block wrappers: float preconditioner backend under a double solver backend,
+        //      scalar double vectors from the caller (tutorial/5.Nullspace/nullspace_hybrid.cpp)
+        guarded("hybrid backend, float preconditioner / double solver", [&](std::vector<double> &x, size_t &it, double &err) {
+            typedef static_matrix<float, B, B> FBlk; typedef backend::builtin_hybrid<FBlk> FHB;
+            typedef make_solver< amg<FHB, coarsening::smoothed_aggregation, relaxation::spai0>, solver::cg<HB> > S; typename S::params prm; common(prm);
+            prm.precond.coarsening.aggr.block_size = B;
+            S s(T, prm); std::tie(it, err) = s(T, f, x); });       // the caller's double matrix (operator()(rhs, x) would solve the float copy)
+        guarded("make_block_solver, float preconditioner / double solver", [&](std::vector<double> &x, size_t &it, double &err) {
+            typedef static_matrix<float, B, B> FBlk; typedef backend::builtin<FBlk> FBB;
+            typedef make_block_solver< amg<FBB, coarsening::smoothed_aggregation, relaxation::spai0>, solver::cg<BB> > S; typename S::params prm; common(prm);
+            S s(T, prm); std::tie(it, err) = s(T, f, x); });
+        guarded("as_block relaxation, float preconditioner / double solver", [&](std::vector<double> &x, size_t &it, double &err) {
+            typedef static_matrix<float, B, B> FBlk; typedef backend::builtin<FBlk> FBB; typedef backend::builtin<float> FSB;
+            typedef make_solver< amg<FSB, coarsening::smoothed_aggregation, relaxation::as_block<FBB, relaxation::ilu0>::template type>, solver::cg<SB> > S; typename S::params prm; common(prm);
+            prm.precond.coarsening.aggr.block_size = B;
+            S s(T, prm); std::tie(it, err) = s(T, f, x); });
         guarded("hybrid backend", [&](std::vector<double> &x, size_t &it, double &err) {
             typedef make_solver< amg<HB, coarsening::smoothed_aggregation, relaxation::spai0>, solver::cg<HB> > S; typename S::params prm; common(prm);
             prm.precond.coarsening.aggr.block_size = B;
